@@ -10,7 +10,9 @@ pub mod formula;
 pub mod gen;
 pub mod known;
 pub mod oracle;
+pub mod probe;
 pub mod props;
+pub mod queries;
 pub mod refparse;
 pub mod sut;
 
